@@ -69,7 +69,7 @@ META = {
         "an edge establishing 'no arguments declared' (truth table over the test's leaves). "
         "R4: the options parser is only called under a test that implies a non-empty option_spec; the opening '---' delimiter is a whole line (dashes, then only blanks up "
         "to the line end - a prefix test or a pattern that lets other text follow is reported); neither style rewrites the lines of the block text (textwrap.dedent empties "
-        "whitespace-only lines: known finding); the two option-style branches are mutually "
+        "whitespace-only lines: known finding), and a rewriting that is present applies on every path through its branch; the two option-style branches are mutually "
         "exclusive, each assigns the block text and re-assigns the remaining content on every path, and no flag set differently by them is tested "
         "behind their join, both terminate the lines of the block text alike (separator join vs line-terminated join), and recognising the ':' style skips "
         "spaces and tabs only (no bare lstrip()/strip(), no \\s class); when the style test refuses a leading ':::' (nested colon fence), every statement in a "
@@ -82,7 +82,7 @@ META = {
         "piece behind a final newline; anything that also drops, strips or filters pieces is reported where its result becomes the body or is counted); "
         "no definition of body_offset combines the line count of a string rebuilt with a lossy '\\n'.join with that of another string (origins "
         "traced through the parser's result object, inlined helpers, `a or b` / conditional expressions and a module-level dict the result is "
-        "memoised in - the lookup key must then mention every parameter the counted string depends on; a line-terminated join is lossless); dropping the leading blank body line "
+        "memoised in - the lookup key must then mention every parameter the counted string depends on; a line-terminated join is lossless; `s.count('\\n')` is a line count only for a string whose every line is provably terminated); dropping the leading blank body line "
         "and `offset += 1` are control-equivalent, happen once and only under a blank test on body[0]; the first line is merged in front of the body "
         "only under a test that excludes whitespace-only text, and the offset goes back by one on the same paths (a reset to 0 is the known finding); no other statement removes, adds, reorders or rewrites body lines (pop/remove/clear/del, "
         "end slices, filtering comprehensions, append/extend, item stores). "
@@ -140,7 +140,15 @@ def simple_defs(fi: FunctionInfo, name: str) -> list[tuple[ast.stmt, ast.expr | 
                 if isinstance(t, ast.Name) and t.id == name:
                     out.append((n, n.value))
                 elif name in target_names(t):
-                    out.append((n, None))
+                    if isinstance(t, (ast.Tuple, ast.List)) and isinstance(n.value, (ast.Tuple, ast.List)) and len(t.elts) == len(n.value.elts) and not any(isinstance(x, ast.Starred) for x in t.elts + n.value.elts):
+                        # a, b = x, y binds element by element
+                        for te, ve in zip(t.elts, n.value.elts):
+                            if isinstance(te, ast.Name) and te.id == name:
+                                out.append((n, ve))
+                            elif name in target_names(te):
+                                out.append((n, None))
+                    else:
+                        out.append((n, None))
         elif isinstance(n, ast.AnnAssign) and isinstance(n.target, ast.Name) and n.target.id == name and n.value is not None:
             out.append((n, n.value))
         elif isinstance(n, ast.AugAssign) and isinstance(n.target, ast.Name) and n.target.id == name:
@@ -2670,6 +2678,28 @@ def r4_one_validation_path(corpus: Corpus, rep: Report, tier: str):
                             f"`{short(st, 50)}`: textwrap.dedent empties every whitespace-only line, so a `|` block value of the {sty!r} style loses the spaces of a whitespace-only line that is "
                             "indented deeper than the block ('\\n\\n' instead of '\\n    \\n'), unlike the same lines in the other style or in YAML",
                         )
+    # ---- a rewriting call applied to the block text inside a style branch applies on every path through the branch:
+    # an arm that skips it hands the tokenizer differently prepared text (e.g. a '---' block without closing delimiter left indented)
+    for sty, iff in sorted(styles.items()):
+        rewr = []
+        for st in cfg.nodes:
+            if isinstance(st, (ast.Assign, ast.AnnAssign)) and cfg.dominates(("T", iff), st) and getattr(st, "value", None) is not None:
+                tg = [x for t_ in (st.targets if isinstance(st, ast.Assign) else [st.target]) for x in target_names(t_)]
+                if set(tg) & VS and any(isinstance(c_, ast.Call) and m.resolve(dotted(c_.func) or "") == "textwrap.dedent" for c_ in ast.walk(st.value)):
+                    rewr.append(st)
+        if not rewr:
+            continue
+        kr = f"{f.fq}|a rewriting of the {sty!r} block text applies on every path of the branch|textwrap.dedent"
+        if cfg.paths_avoiding(("T", iff), tok_stmt, lambda n_: n_ in rewr):
+            rep.violation(
+                "C08.R4",
+                kr,
+                m.site(rewr[0]),
+                f"`{short(rewr[0], 50)}` removes the common indentation on some paths through the {sty!r} branch only: a block that takes the other arm (e.g. one that runs to the end of the "
+                "directive without a closing delimiter) reaches the tokenizer still indented and is rejected ('expected key to start at column 0'), so all its options are lost",
+            )
+        else:
+            rep.ok("C08.R4", kr, m.site(rewr[0]))
     # ---- recognising the ':' style skips indentation only: spaces and tabs, never line feeds or other Unicode white space
     def wide_strips(root: ast.AST):
         for c_ in ast.walk(root):
@@ -3081,7 +3111,7 @@ def r4_one_validation_path(corpus: Corpus, rep: Report, tier: str):
             rep.violation("C08.R4", k, site, f"`{short(ret, 60)}` hands back option values from {src_} that never passed the option_spec lookup/conversion loop: unknown or invalid options are kept, unconverted and without a warning")
         else:
             rep.ok("C08.R4", k, site, "no option value can reach this dict (only empty-dict definitions reach the return)")
-    rep.expect_min("C08.R4", 29, "2x2 style-branch obligations, >=8 validation steps, 8 path classes, store roles, 4 returns")
+    rep.expect_min("C08.R4", 30, "2x2 style-branch obligations, >=8 validation steps, 8 path classes, store roles, 4 returns")
 
 
 # ---------------------------------------------------------------------------
@@ -3357,8 +3387,16 @@ class StrOrigin:
         return None
 
     def count(self, e: ast.expr, fi: FunctionInfo) -> set[str] | None:
+        if isinstance(e, ast.BinOp) and isinstance(e.op, (ast.Add, ast.Sub)) and isinstance(e.right, ast.Constant) and isinstance(e.right.value, int):
+            return self.count(e.left, fi)  # a count shifted by a constant is still a count of the same string's lines
         if isinstance(e, ast.Call) and dotted(e.func) == "len" and len(e.args) == 1:
             return self.lines(e.args[0], fi)
+        if isinstance(e, ast.Call) and isinstance(e.func, ast.Attribute) and e.func.attr == "count" and len(e.args) == 1 and isinstance(e.args[0], ast.Constant) and e.args[0].value == "\n":
+            # the number of line feeds is the number of lines only for a string whose every line is terminated
+            o = set(self.string(e.func.value, fi))
+            if not o or not all(t.startswith("terminated-lines@") for t in o):
+                o.add("terminator-count:" + unparse(e))
+            return o
         return None
 
 
@@ -3504,6 +3542,16 @@ def r5_body_offset(corpus: Corpus, rep: Report, tier: str):
             judged = True
             if "unknown" in lo or "unknown" in ro:
                 rep.error("C08.R5", f"{site}: cannot trace the strings whose lines are counted in `{short(b, 60)}`")
+                continue
+            tc = sorted(t.split(":", 1)[1] for t in (lo | ro) if t.startswith("terminator-count:"))
+            if tc:
+                rep.violation(
+                    "C08.R5",
+                    k,
+                    site,
+                    f"`{tc[0]}` counts line feeds, not lines: for content whose last line is not terminated (an API caller, the mocked nested parse joining lines with '\\n') it is one less than "
+                    "the number of content lines, so the reported body offset is one too small - the count must come from the same line split that produces the body",
+                )
                 continue
             inexact = sorted(t.split(":", 1)[1] for t in (lo | ro) if t.startswith("inexact-split:"))
             if inexact:
@@ -4256,6 +4304,25 @@ def mutants(corpus: Corpus):
         add("c08-defaults-merged-only-with-block-options", "C08.R2", splice(src, mgi.test, f"{ast.get_source_segment(src, mgi.test)} and options"), "applied or their loss is reported", note="weakens the merge: only when the block has options")
     else:
         out.append(("c08-testdirective-returns-before-merge", "TestDirective return / merge not found in the expected order"))
+    # ---- class: the content lines are counted by their line feeds (R5)
+    cnt_ = find_node(ft, lambda n: isinstance(n, ast.Call) and dotted(n.func) == "len" and len(n.args) == 1 and isinstance(n.args[0], ast.Call) and n.args[0].args and unparse(n.args[0].args[0]) == "content" and isinstance(parent(n), ast.BinOp))
+    add("c08-lines-counted-by-line-feeds", "C08.R5", splice(src, cnt_, 'content.count("\\n")') if cnt_ is not None else None, "|content_offset = content.count(")
+    add("c08-lines-counted-by-line-feeds-plus-one", "C08.R5", splice(src, cnt_, '(content.count("\\n") + 1)') if cnt_ is not None else None, "|content_offset = content.count(")
+    # ---- class: the block text is rewritten on one arm of its style branch only (R4)
+    if dd is not None:
+        arm = find_node(fo, lambda n: isinstance(n, ast.Assign) and unparse(n.targets[0]) == unparse(dd.targets[0]) and isinstance(n.value, ast.Subscript) and "start()" in unparse(n.value))
+        if arm is not None:
+            new = splice(src, dd, "pass")
+            new = splice(new, arm.value, f"dedent({ast.get_source_segment(src, arm.value)})")
+            add("c08-dedent-only-with-closing-delimiter", "C08.R4", new, "applies on every path of the branch")
+            ifm = parent(arm)
+            if isinstance(ifm, ast.If) and ifm.orelse and isinstance(ifm.orelse[0], ast.Assign):
+                oe = ifm.orelse[0]
+                new2 = splice(src, dd, "pass")
+                new2 = splice(new2, oe.value, f"dedent({ast.get_source_segment(src, oe.value)})")
+                add("c08-dedent-only-without-closing-delimiter", "C08.R4", new2, "applies on every path of the branch")
+        else:
+            out.append(("c08-dedent-only-with-closing-delimiter", "arm assigning the block text from the match not found"))
     # ---- class: the caller's defaults mapping is changed in place (R2)
     if mg is not None:
         ind = indent_of(fo, mg)
